@@ -24,13 +24,12 @@
    their forward array, reference count = parked iterators >= 1).
    C18_skiplist_survivors_dictionary - after any history, once all iterators are freed, the list is a dictionary of
    the surviving entries, and no removed node is still allocated (MapSkipProofs4.v).
-   SKIPLIST, still PARTIAL: "present throughout => returned (exactly once under removals only)" for caller-held
-   iterators is proved on layer A only (MapRefModel.v, run against the library on every check: an iterator only ever
-   returns entries that are present, with their current value, and nothing after it reported the end) and checked by
-   the ASan / monitor / correspondence run over generated interleavings. *)
+   C18_skiplist_coverage - present throughout => returned; returned keys strictly ascending per iterator, hence
+   exactly once - even under insertions (MapSkipProofs5.v).  With these C18 is proved in full for the pointer-level
+   skiplist model as well; the layer-A theorems below remain as the abstract view that is run against the library. *)
 From Coq Require Import ZArith List NArith Bool.
 Require Import Verif.gen.Consts_map Verif.MapSpec Verif.MapHashModel Verif.MapSkipModel Verif.MapRefModel
-  Verif.MapRefProofs Verif.MapHashProofs Verif.MapHashProofs2 Verif.MapHashProofs3 Verif.MapHashProofs4 Verif.MapHashProofs5 Verif.MapHashProofs6 Verif.MapSkipProofs Verif.MapSkipProofs2 Verif.MapSkipProofs3 Verif.MapSkipProofs4.
+  Verif.MapRefProofs Verif.MapHashProofs Verif.MapHashProofs2 Verif.MapHashProofs3 Verif.MapHashProofs4 Verif.MapHashProofs5 Verif.MapHashProofs6 Verif.MapSkipProofs Verif.MapSkipProofs2 Verif.MapSkipProofs3 Verif.MapSkipProofs4 Verif.MapSkipProofs5.
 Import ListNotations.
 
 (* hashtable: put a; iterator parked on a; rm a; get a (still answers 1); rm a again (succeeds, frees the node);
@@ -184,6 +183,37 @@ Theorem C18_skiplist_survivors_invariant : forall ops1 s,
   k_state_after kv_fixed k_create ops1 = Ok s -> k_iters s = [] -> k_alive s = true -> exists C0, SGood17 s C0.
 Proof. exact skip_c18_survivors_invariant. Qed.
 Print Assumptions C18_skiplist_survivors_invariant.
+
+(* skiplist, coverage: next to the run a ghost record per open iterator is kept as the Python monitor keeps it (stable =
+   keys present at creation and not removed since; seen = keys returned so far; MapSkipProofs5.gk_step).  Along EVERY
+   history (any interleaving of iterator operations with insertions and removals, any random() answers), at every
+   iter_next (gk_check): a returned key is present and greater than every key the iterator returned before - so no key
+   is returned twice, insertions or not - and when the end is reported every stable key has been returned *)
+Theorem C18_skiplist_coverage : forall ops, gk_run k_create [] ops.
+Proof. exact skip_c18_coverage. Qed.
+Print Assumptions C18_skiplist_coverage.
+
+Theorem C18_skiplist_coverage_step : forall rc s o orc g, (k_alive s = false \/ TCov s g) ->
+  exists s' x ns, k_step kv_fixed rc s o orc = Ok (s', x, ns) /\ gk_check s o x g /\
+    (k_alive s' = false \/ TCov s' (gk_step s o x g)).
+Proof. exact skip_step_cov. Qed.
+Print Assumptions C18_skiplist_coverage_step.
+
+(* what iter_next computes from a parked position, linked or removed: the linked node with the least key above the
+   key the iterator stands on (Succ), returned with its current value *)
+Theorem C18_skiplist_next_successor : forall cnt zk s C0 Zs p, KInv cnt zk s C0 Zs -> 1 <= cnt p ->
+  exists s' pos1 r ns Zs' b, k_iter_next kv_fixed s (Some p) = Ok (s', pos1, r, ns) /\
+    KInv (match pos1 with Some x => dec (inc cnt x) p | None => dec cnt p end) zk s' C0 Zs' /\ same_tab s s' /\
+    keys_same s s' C0 /\ (forall z, In z Zs' -> In z Zs) /\ (forall z, In z Zs -> z <> p \/ 2 <= cnt p -> In z Zs') /\
+    PB s C0 Zs zk p b /\ Succ s C0 b pos1 /\ r = option_map (kvk' s') pos1.
+Proof. exact kinv_iter_next. Qed.
+
+(* non-vacuity: put b, put c, create, next (-> b), rm b, next (-> c): the record the checks are about *)
+Example C18_skiplist_coverage_example :
+  option_map snd (gk_after k_create [] [(Put MapSkipProofs.kb 1%N, lvl0); (Put MapSkipProofs.kc 2%N, lvl0); (IterCreate 0 None, []); (IterNext 0, []);
+                                        (Rm MapSkipProofs.kb, []); (IterNext 0, [])]) =
+  Some [(0, {| c_stable := [MapSkipProofs.kc]; c_seen := [MapSkipProofs.kc; MapSkipProofs.kb]; c_ins := false |})].
+Proof. exact skip_c18_coverage_example. Qed.
 
 (* layer A, every state, every iterator position: what iter_next returns is a present entry with its current value
    ("no key that was never present is returned") *)
